@@ -309,6 +309,9 @@ def rule_from_valid(crate, prop, tier):
         adds = [ev for ev in an.events if ev["k"] == "call" and ev["key"] in (
             "graaf::op::add_arc::AddArc::add_arc", "graaf::op::add_arc_weighted::AddArcWeighted::add_arc_weighted")]
         empties = [ev for ev in an.events if ev["k"] == "call" and ev["key"] == "graaf::gen::empty::Empty::empty"]
+        srcarg0 = an.f["locals"][1]["ty"]
+        if srcarg0["k"] == "adt" and srcarg0["path"] in REPR and _form_e(crate, o, an, fx, pretty, T):
+            continue
         if not lits:
             # form (a): Self::empty(order) + add_arc*
             streams = arc_streams(crate, an, fx)
@@ -378,6 +381,9 @@ def rule_from_valid(crate, prop, tier):
             if acc is not None and _fold_max_over(crate, an, acc, fields.get("arcs")):
                 # order = (maximum endpoint over the finished arc container) + 1
                 ins = _local_inserts(an)
+                if not ins and _collect_of_checked_input(crate, an, fx, fields.get("arcs")):
+                    # arcs = iter.into_iter().inspect(|&(u, v)| assert_ne!(u, v)).collect()
+                    continue
                 o.check(len(ins) >= 1, pretty, "form-c-insert", "no arc is inserted")
                 for ev in ins:
                     E = ev["args"][1]
@@ -462,6 +468,8 @@ def rule_from_valid(crate, prop, tier):
                 o.check(an.cfg.dominates(outer["b"], rb), pretty, "form-b-validated-before-return",
                         "the literal can be returned without being validated")
             continue
+        if len(loops) != 1 and rowloops is None and _row_summary_for_each(crate, an, fx, fields.get("arcs")):
+            continue
         if not o.check(len(loops) == 1 or rowloops is not None, pretty, "form-b-loop",
                        "no validation loop over the arcs of the freshly built value (neither `for (u, v) in value.arcs()` nor "
                        "nested loops over every row and every head)"):
@@ -511,6 +519,74 @@ def rule_from_valid(crate, prop, tier):
         # non-empty input
         o.check(any(e["k"] == "switch" or e["k"] == "assert" for e in an.events), pretty, "form-b-has-checks", "no checks at all")
     return o.report(floors={"From impls into representations": (o.instances, 25)})
+
+
+def _form_e(crate, o, an, fx, pretty, T):
+    """form (e): the result starts with the source's order (Self::empty(order) / vec![..; order] / (0..order) rows) and every
+    arc (u, v) of the source is inserted directly into its rows inside one complete arc stream (loop, for_each or fold),
+    under u != v, v in range, and u in range (checked, or the row obtained by a bounds-checked lookup).  Purely an
+    acceptance: returns False (nothing recorded) when the body does not have this shape."""
+    streams = arc_streams(crate, an, fx)
+    if len(streams) != 1 or not streams[0]["complete"]:
+        return False
+    st = streams[0]
+    san = st["an"]
+    sfx = crate.fx(san.path)
+    adds = [ev for ev in san.events if ev["k"] == "call" and ev["key"] in (
+        "graaf::op::add_arc::AddArc::add_arc", "graaf::op::add_arc_weighted::AddArcWeighted::add_arc_weighted")]
+    if adds:
+        return False
+    item = st["item"]
+    u, v = mk_field(item, "0", 0), mk_field(item, "1", 1)
+    ins = [x for x in arc_insertions(crate, san, sfx) if st["inside"](x[0])]
+    wins = [ev for ev in san.events if ev["k"] == "call" and ev["key"] == "alloc::collections::btree::map::BTreeMap::insert"
+            and len(ev["args"]) == 3 and st["inside"](ev)]
+    if not ins and not wins:
+        return False
+    # base: created with the source's order
+    base_ok = False
+    for ev in an.events:
+        if ev["k"] != "call":
+            continue
+        n = None
+        if ev["key"] == "graaf::gen::empty::Empty::empty" and ev["args"]:
+            n = ev["args"][0]
+        elif ev["key"] == "alloc::vec::from_elem" and len(ev["args"]) == 2:
+            n = ev["args"][1]
+        elif ev["key"] == "core::iter::traits::iterator::Iterator::collect" and ev["args"]:
+            t = ev["args"][0]
+            while t[0] == "call" and t[1].startswith("core::iter::traits::iterator::Iterator::") and t[3] and t[1].split("::")[-1] in ("map", "zip"):
+                t = t[3][0]
+            if t[0] == "agg" and t[1] == "adt" and t[2][0].endswith("ops::range::Range") and t[3][0] == ("const", "usize", 0):
+                n = t[3][1]
+        if n is not None and ((n[0] == "call" and n[1] == ORD and _refers_arg1(n)) or (n[0] in ("len", "mem") and _refers_arg1(n))):
+            base_ok = True
+    if not base_ok:
+        return False
+    good = True
+    weighted_one = True
+    for ev, tl, hd in ins:
+        if (tl, hd) != (u, v):
+            good = False
+            continue
+        ok_ne = sfx.holds(ev["b"], lambda rel: rel.has(mk_ne(u, v)))
+        ok_v = sfx.holds(ev["b"], lambda rel: any(a[0] == "lt" and a[1] == v for a in rel.w))
+        good = good and ok_ne and (ok_v or T.endswith("AdjacencyMap") and False)
+    for ev in wins:
+        # weight maps: row.insert(v, 1)
+        tl = row_index_of(san, sfx, ev["args"][0])
+        if tl != u or ev["args"][1] != v:
+            good = False
+            continue
+        ok_ne = sfx.holds(ev["b"], lambda rel: rel.has(mk_ne(u, v)))
+        ok_v = sfx.holds(ev["b"], lambda rel: any(a[0] == "lt" and a[1] == v for a in rel.w))
+        good = good and ok_ne and ok_v
+        weighted_one = weighted_one and ev["args"][2][0] == "const" and ev["args"][2][2] == 1
+    if not good:
+        return False
+    o.check(True, pretty, "form-e", "")
+    o.check(weighted_one, pretty, "weight-one", "an unweighted arc is converted with a weight other than 1")
+    return True
 
 
 def arc_streams(crate, an, fx):
@@ -630,6 +706,79 @@ def row_summary_loop(an, fx):
     return None
 
 
+def _row_summary_for_each(crate, an, fx, arcs):
+    """`rows.iter().enumerate().for_each(|(u, row)| ..)` over the Vec that becomes the literal's rows, dominating every return;
+    the closure returns only when (1) row.get(&u) is None [a Some(x) world with u != *x is infeasible: get returns the equal
+    member] or row does not contain u, and (2) row.range(order..).next() is None where order is the captured length of
+    the Vec"""
+    fe = [ev for ev in an.events if ev["k"] == "call" and ev["key"] == "core::iter::traits::iterator::Iterator::for_each" and len(ev["args"]) == 2]
+    if len(fe) != 1:
+        return False
+    fe = fe[0]
+    if not all(an.cfg.dominates(fe["b"], rb) for rb in an.cfg.returns):
+        return False
+    src, clo = fe["args"]
+    if not (src[0] == "call" and src[1] == "core::iter::traits::iterator::Iterator::enumerate" and clo[0] == "agg" and clo[1] == "closure"):
+        return False
+    src = src[3][0]
+    while src[0] == "call" and src[3] and src[1] in ("slice::iter", "core::ops::deref::Deref::deref"):
+        src = src[3][0]
+    if not (src[0] == "at" and src[2] is None and arcs is not None and (
+            (arcs[0] == "mem" and arcs[3] is None and arcs[1] == src[1] and arcs[2] == src[3])
+            or an.term_of.get((src[1], src[3])) == arcs)):
+        return False
+    rows = src[1]
+    # captures whose value is the length of the rows
+    lens = set()
+    for k_, cap in enumerate(clo[3]):
+        if cap[0] in ("addr", "at") and cap[2] is None:
+            vals = {t for (var, ver), t in an.term_of.items() if var == cap[1] and t[0] != "opq"}
+            if len(vals) == 1:
+                t = next(iter(vals))
+                if t[0] == "len" and t[1][0] == "at" and t[1][1] == rows and t[1][2] is None:
+                    lens.add(("mem", "A1.%d*" % k_, ("e",), None))
+    can, cfx = crate.an(clo[2]), crate.fx(clo[2])
+    u, row = mk_field(("arg", 2), "0", 0), mk_field(("arg", 2), "1", 1)
+    gets, rngs = [], []
+    for ev in can.events:
+        if ev["k"] != "call" or not ev["args"]:
+            continue
+        if ev["key"] == "alloc::collections::btree::set::BTreeSet::get" and ev["args"][0] == row and len(ev["args"]) == 2 \
+                and ev["res"][0] == "call" and _value_of_ref(can, ev["res"][3][1]) == u:
+            gets.append(ev["res"])
+        if ev["key"] == ITER_NEXT:
+            d = cfx.iter_desc(ev)
+            if d and d != "CYCLE" and d[0] == "call" and d[1] == "alloc::collections::btree::set::BTreeSet::range" and len(d[3]) == 2 \
+                    and strip_ref(d[3][0]) in (row, strip_ref(row)) or (d and d != "CYCLE" and d[0] == "call" and d[1].endswith("BTreeSet::range")
+                                                                      and len(d[3]) == 2 and _row_of_item(d[3][0])):
+                r = d[3][1]
+                if r[0] == "agg" and r[1] == "adt" and r[2][1] == "RangeFrom" and r[3] and r[3][0] in lens:
+                    rngs.append(ev["res"])
+    if not gets or not rngs or not can.cfg.returns:
+        return False
+
+    def no_self(rel):
+        for X in gets:
+            if rel.variant(X) == "None":
+                return True
+            if rel.variant(X) == "Some":
+                pay = ("field", ("dc", X, "Some"), "0")
+                for a in rel.w:
+                    if a[0] == "ne" and u in (a[1], a[2]):
+                        other = a[2] if a[1] == u else a[1]
+                        if other[0] == "mem" and other[3] == pay:
+                            return True
+        return False
+
+    def in_range(rel):
+        return any(rel.variant(X) == "None" for X in rngs)
+    return all(cfx.holds(rb, no_self) and cfx.holds(rb, in_range) for rb in can.cfg.returns)
+
+
+def _row_of_item(t):
+    return t[0] == "at" and t[1] == "A2.1*"
+
+
 def _value_of_ref(an, t):
     """value behind a reference-to-local argument of a pure call"""
     if t[0] == "at" and t[2] is None:
@@ -694,7 +843,9 @@ def _fold_max_over(crate, an, acc, arcs_field):
         return False
     while src[0] == "call" and src[3] and src[1].split("::")[-1] in ("iter", "into_iter", "deref", "copied"):
         src = src[3][0]
-    if not (src[0] == "at" and arcs_field is not None and arcs_field[0] == "mem" and arcs_field[1] == src[1] and arcs_field[2] == src[3]):
+    if not (src[0] == "at" and arcs_field is not None and (
+            (arcs_field[0] == "mem" and arcs_field[1] == src[1] and arcs_field[2] == src[3])
+            or (src[2] is None and an.term_of.get((src[1], src[3])) == arcs_field))):
         return False
     can = crate.an(clo[2])
     rets = [e for e in can.events if e["k"] == "return"]
@@ -712,6 +863,32 @@ def _fold_max_over(crate, an, acc, arcs_field):
     want = {("arg", 2), ("mem", "A3.0", ("e",), None), ("mem", "A3.1", ("e",), None)}
     alt = {("arg", 2), ("field", ("arg", 3), "0"), ("field", ("arg", 3), "1")}
     return set(leaves) in (want, alt)
+
+
+def _collect_of_checked_input(crate, an, fx, arcs):
+    """arcs is `arg1.into_iter().inspect(C).collect()` where the closure C returns only when its item (u, v) has u != v"""
+    def val(t):
+        if t is not None and t[0] == "site":
+            ev = fx.an_call_at(t[1])
+            if ev is not None:
+                return ("call", ev["key"], (), tuple(ev["args"]))
+        return t
+    t = val(arcs)
+    if t is not None and t[0] == "mem" and t[3] is None:
+        t = val(an.term_of.get((t[1], t[2])))
+    if not (t and t[0] == "call" and t[1] == "core::iter::traits::iterator::Iterator::collect" and t[3]):
+        return False
+    t = val(t[3][0])
+    if not (t and t[0] == "call" and t[1] == "core::iter::traits::iterator::Iterator::inspect" and len(t[3]) == 2):
+        return False
+    src, clo = val(t[3][0]), t[3][1]
+    if src and src[0] == "call" and src[1] == "core::iter::traits::collect::IntoIterator::into_iter" and src[3]:
+        src = src[3][0]
+    if src != ("arg", 1) or not (clo[0] == "agg" and clo[1] == "closure"):
+        return False
+    can, cfx = crate.an(clo[2]), crate.fx(clo[2])
+    u, v = ("mem", "A2.0", ("e",), None), ("mem", "A2.1", ("e",), None)
+    return bool(can.cfg.returns) and all(cfx.holds(rb, lambda rel: rel.has(mk_ne(u, v))) for rb in can.cfg.returns)
 
 
 def _is_running_max(t, acc):
@@ -847,6 +1024,14 @@ def row_index_of(an, fx, t, depth=0):
         return i
     if t[0] == "elem" and len(t) == 3:
         return t[2]         # slice[i] on a captured slice reference
+    if t[0] in ("call", "site"):
+        ev0 = fx.an_call_at(t[1]) if t[0] == "site" else None
+        key0 = t[1] if t[0] == "call" else (ev0["key"] if ev0 else None)
+        args0 = t[3] if t[0] == "call" else (ev0["args"] if ev0 else ())
+        if key0 == "alloc::collections::btree::map::BTreeMap::entry" and len(args0) == 2:
+            return args0[1]         # the row of key k: map.entry(k)
+        if key0 in ("alloc::collections::btree::map::BTreeMap::get_mut", "alloc::collections::btree::map::BTreeMap::get") and len(args0) == 2:
+            return _value_of_ref(an, args0[1])
     if t[0] == "call" and t[3]:
         return row_index_of(an, fx, t[3][0], depth + 1)
     if t[0] == "field" or t[0] == "dc":
@@ -876,6 +1061,16 @@ def arc_insertions(crate, an, fx, toggles=False):
         elif toggles and key == "graaf::repr::adjacency_matrix::AdjacencyMatrix::toggle" and len(ev["args"]) == 3:
             # flipping a cell inserts the arc when every cell is flipped at most once (the caller's obligation)
             out.append((ev, ev["args"][1], ev["args"][2]))
+        elif toggles and key == "alloc::vec::Vec::push" and len(ev["args"]) == 2 and ev["fn"] and ev["fn"].get("targs") \
+                and ev["fn"]["targs"][0].get("k") == "tuple" and len(ev["fn"]["targs"][0].get("elems", ())) == 2 \
+                and ev["args"][0][0] == "addr" and _returned_local(an, ev["args"][0][1]):
+            # a worker collects its oriented pairs in a list it returns; the caller inserts them
+            from .core import mk_field
+            E = ev["args"][1]
+            if E[0] == "agg" and len(E[3]) == 2:
+                out.append((ev, E[3][0], E[3][1]))
+            else:
+                out.append((ev, mk_field(E, "0", 0), mk_field(E, "1", 1)))
         elif key == "alloc::collections::btree::set::BTreeSet::insert" and len(ev["args"]) == 2:
             E = ev["args"][1]
             idx = row_index_of(an, fx, ev["args"][0])
@@ -889,6 +1084,11 @@ def arc_insertions(crate, an, fx, toggles=False):
                 from .core import mk_field
                 out.append((ev, mk_field(E, "0", 0), mk_field(E, "1", 1)))
     return out
+
+
+def _returned_local(an, R):
+    rets = [e for e in an.events if e["k"] == "return"]
+    return bool(rets) and all(e["val"][0] == "mem" and e["val"][1] == R and e["val"][3] is None for e in rets)
 
 
 def subst_phis(an, fx, t, pick, depth=0):
@@ -1032,6 +1232,7 @@ def rule_one_per_pair(crate, prop, tier):
                     pan_, pfx_ = crate.an(par), crate.fx(par)
                     cons = [pev for pev in pan_.events if pev["k"] == "call" and any(a[0] == "agg" and a[1] == "closure" and a[2] == bp
                                                                                       for a in pev["args"])]
+                    cons = [pev for pev in cons if pev["key"] and pev["key"].startswith(IT_)] or cons
                     if not cons:
                         # a closure bound to a local first (`let orient = |..| ..; stream.map(orient)`)
                         cons = [pev for pev in pan_.events if pev["k"] == "call" and pev["key"] in (IT_ + "map", IT_ + "for_each")
@@ -1045,6 +1246,16 @@ def rule_one_per_pair(crate, prop, tier):
                             inner = (None, ("field", item, "0"), ("field", item, "1"))
                             if cons[0]["key"] == IT_ + "map":
                                 mapped = (pan_, cons[0])
+                    elif len(cons) == 1 and cons[0]["key"] == IT_ + "fold" and len(cons[0]["args"]) == 3:
+                        # stream.fold(rows, |mut rows, (u, v)| { ..insert..; rows })
+                        src = cons[0]["args"][0]
+                        if src[0] == "addr":
+                            src = pfx_.iter_desc(cons[0])
+                        rets_f = [e for e in an.events if e["k"] == "return"]
+                        hands_on = bool(rets_f) and all(_is_param_value(an, e["val"], 2) for e in rets_f)
+                        if src and src != "CYCLE" and _flat_pair_stream(crate, src) and hands_on:
+                            item = ("arg", 3)
+                            inner = (None, ("field", item, "0"), ("field", item, "1"))
                 if not o.check(inner is not None, pretty, "pair-loop", "no loop `for v in (u + 1)..order` around the draw", dr["span"]):
                     continue
                 lev, u, v = inner
